@@ -21,7 +21,9 @@ D == 10                                          \* lengths are k / D metres
 Mixes == << << <<1, 4, 3, 0>> >>,                                           \* one ion species, constant stopping rate
             << <<1, 4, 2, 1>>, <<6, 1, 1, 2>> >>,                           \* two ion species, rates depend on n_eq
             << <<1, 3, 0, 2>>, <<6, 1, 3, 1>>, <<10, 1, 1, 1>> >>,          \* three ion species
-            << <<1, 4, 0, 0>>, <<2, 1, 0, 0>> >> >>                         \* no stopping at all
+            << <<1, 4, 0, 0>>, <<2, 1, 0, 0>> >>,                           \* no stopping at all
+            << <<1, 3, 1, 1>>, <<5, 1, 2, 1>>, <<6, 1, 1, 3>> >>,           \* two charge states of one element (C5+, C6+), each with its own rate
+            << <<9, 1, 3, 0>>, <<10, 1, 1, 1>>, <<8, 1, 0, 2>> >> >>        \* three charge states of neon, listed out of order
 \* beam shapes: <<sigma*D, tan(alpha_x)*D, tan(alpha_y)*D, length*D, clamp on?, clamp_sigma>>
 Shapes == << <<1, 0, 0, 40, FALSE, 5>>, <<1, 2, 0, 40, TRUE, 2>>, <<2, 1, 3, 30, TRUE, 3>>, <<1, 1, 1, 20, FALSE, 5>> >>
 Xs == {0, 1, -3, 6}
